@@ -13,6 +13,7 @@ import (
 	"math/rand"
 	"net/http"
 	"reflect"
+	"runtime"
 	"sort"
 	"strings"
 	"sync"
@@ -48,6 +49,9 @@ type op struct {
 	cases  []selCase   // for select
 	hasDef bool
 	chosen int // select: case picked by the scheduler (-1 = default)
+	site   uintptr // call site of a select with a default branch (spin detection)
+	lockKey uintptr
+	recvKey uintptr
 }
 
 type Thread struct {
@@ -57,7 +61,10 @@ type Thread struct {
 	pending  *op
 	finished bool
 	exited   chan struct{}
-	spins    int // consecutive default-branch selects with nobody else running in between
+	spins    int // consecutive default-branch takes of the SAME select with nobody else running in between
+	spinSite uintptr
+	waiting  int // consecutive scheduling decisions at which it could run but was not picked
+	foreign  bool // parked for good on a goroutine that is not its own (see abortHere)
 	nameH    uint64
 	hist     uint64 // rolling hash of the results of this thread's operations: determines its local state
 	nops     uint64
@@ -65,6 +72,7 @@ type Thread struct {
 }
 
 type timer struct {
+	key   uintptr
 	id    int
 	owner *Thread
 	ch    chan time.Time
@@ -85,6 +93,7 @@ type Scheduler struct {
 	running  *Thread
 	cmu      sync.Mutex // guards closed (ready functions run with mu held)
 	closed   map[uintptr]bool
+	keep     map[uintptr]any
 	timers   []*timer
 	clock    time.Duration
 	Deadlock string   // set when no thread could run while some were unfinished
@@ -97,12 +106,18 @@ type Scheduler struct {
 	Trace    []string
 	KeepTrace bool
 	Leaked   []string // threads that did not unwind at tear-down (blocked outside the shim)
+	Foreign  []string // threads parked for good on a goroutine of the code under test (only after an abort)
 	// ShutdownWait stands for http.Server.Shutdown: the harness knows the handler threads
 	ShutdownWait func(ctx context.Context) error
 	TimedOut     int // timers fired
 	KeepEvents   bool
+	drainOnCut   bool
+	draining     bool
+	delayBound   bool
+	lastRan      int
 	Events       []Event
 	Cut          bool // the execution was cut at a state that was already expanded
+	locks        map[uintptr]*lockState
 	shadow       map[uintptr][]uint64 // per channel: the tokens (sender thread, operation index) of the buffered values
 }
 
@@ -134,6 +149,47 @@ func (s *Scheduler) ev(e Event) {
 		s.Events = append(s.Events, e)
 	}
 }
+
+func (s *Scheduler) choose(labels []string, costs []int) int {
+	if s.draining {
+		return 0
+	}
+	return s.ch.Choose(labels, costs)
+}
+
+// onOwnGoroutine: is the calling goroutine the one threadMain runs on? (only asked when
+// an execution is torn down)
+func onOwnGoroutine() bool {
+	var pcs [64]uintptr
+	n := runtime.Callers(2, pcs[:])
+	fr := runtime.CallersFrames(pcs[:n])
+	for {
+		f, more := fr.Next()
+		if strings.HasSuffix(f.Function, "vch.(*Scheduler).threadMain") {
+			return true
+		}
+		if !more {
+			return false
+		}
+	}
+}
+
+// abortHere unwinds the calling logical thread. Code under test may execute shim
+// operations on a goroutine of its own on behalf of a logical thread (a coroutine
+// resumed by the kernel loop calls the reply callback): such a goroutine cannot be
+// unwound by a panic (nobody recovers it), it parks for good instead.
+func (s *Scheduler) abortHere(t *Thread) {
+	if t == nil || onOwnGoroutine() {
+		panic(abortExec{})
+	}
+	s.mu.Lock()
+	t.foreign = true
+	s.mu.Unlock()
+	select {}
+}
+
+// FairK: see schedule.
+const FairK = 16
 
 // Seener is implemented by choosers that prune at visited states.
 type Seener interface {
@@ -257,8 +313,25 @@ func active() *Scheduler {
 
 // Run executes body as thread 0 under a fresh scheduler driven by ch and returns
 // when every thread has finished, a deadlock was detected or the step bound was hit.
-func Run(ch Chooser, maxSteps int, keepTrace, keepEvents bool, body func()) *Scheduler {
-	s := &Scheduler{KeepTrace: keepTrace, KeepEvents: keepEvents, shadow: map[uintptr][]uint64{}, ch: ch, closed: map[uintptr]bool{}, MaxSteps: maxSteps, done: make(chan struct{})}
+// Options of one controlled execution.
+type Options struct {
+	MaxSteps   int
+	KeepTrace  bool
+	KeepEvents bool
+	// DrainOnCut: at a state that was already expanded the execution is not abandoned but
+	// run to its end with default choices and without recording choice points (for code
+	// that parks native goroutines which an abandoned execution would leak).
+	DrainOnCut bool
+	// DelayBound: the default schedule is round robin without preemption (the running thread
+	// goes on, a blocked one hands over to the next runnable thread in creation order after
+	// it); choosing the i-th candidate instead of the first costs i delays, at blocking points
+	// too (Emmi, Qadeer, Rakamaric: delay-bounded scheduling). Off: preemption bounding, where
+	// only switching away from a runnable thread costs and hand-overs at blocking points are free.
+	DelayBound bool
+}
+
+func Run(ch Chooser, opt Options, body func()) *Scheduler {
+	s := &Scheduler{KeepTrace: opt.KeepTrace, KeepEvents: opt.KeepEvents, drainOnCut: opt.DrainOnCut, delayBound: opt.DelayBound, shadow: map[uintptr][]uint64{}, locks: map[uintptr]*lockState{}, ch: ch, closed: map[uintptr]bool{}, keep: map[uintptr]any{}, MaxSteps: opt.MaxSteps, done: make(chan struct{})}
 	gmu.Lock()
 	S = s
 	gmu.Unlock()
@@ -281,11 +354,26 @@ func Run(ch Chooser, maxSteps int, keepTrace, keepEvents bool, body func()) *Sch
 		case t.sem <- struct{}{}:
 		default:
 		}
-		select {
-		case <-t.exited:
-		case <-time.After(5 * time.Second):
-			s.Leaked = append(s.Leaked, t.Name)
+		tm := time.NewTimer(2 * time.Second)
+	wait:
+		for {
+			select {
+			case <-t.exited:
+				break wait
+			case <-tm.C:
+				s.Leaked = append(s.Leaked, t.Name)
+				break wait
+			case <-time.After(2 * time.Millisecond):
+				s.mu.Lock()
+				f := t.foreign
+				s.mu.Unlock()
+				if f {
+					s.Foreign = append(s.Foreign, t.Name)
+					break wait
+				}
+			}
 		}
+		tm.Stop()
 		s.mu.Lock()
 		ths = append(ths[:0:0], s.threads...) // threads spawned by deferred code
 		s.mu.Unlock()
@@ -334,6 +422,18 @@ func (s *Scheduler) threadMain(t *Thread, body func()) {
 
 type abortExec struct{}
 
+func (o *op) listens(k uintptr) bool {
+	if o.recvKey == k {
+		return true
+	}
+	for _, c := range o.cases {
+		if !c.send && c.key == k {
+			return true
+		}
+	}
+	return false
+}
+
 func (s *Scheduler) enabled(t *Thread) bool {
 	if t.finished || t.pending == nil {
 		return false
@@ -342,7 +442,7 @@ func (s *Scheduler) enabled(t *Thread) bool {
 	switch o.kind {
 	case opStart, opYield:
 		return true
-	case opSend, opRecv, opJoin:
+	case opSend, opRecv, opJoin, opLockW, opLockR:
 		return o.ready()
 	case opSelect:
 		if o.hasDef {
@@ -365,7 +465,7 @@ func (s *Scheduler) schedule(self *Thread) {
 		if s.Aborted {
 			s.mu.Unlock()
 			if self != nil {
-				panic(abortExec{})
+				s.abortHere(self)
 			}
 			return
 		}
@@ -376,7 +476,7 @@ func (s *Scheduler) schedule(self *Thread) {
 			s.mu.Unlock()
 			s.finish()
 			if self != nil {
-				panic(abortExec{})
+				s.abortHere(self)
 			}
 			return
 		}
@@ -393,6 +493,14 @@ func (s *Scheduler) schedule(self *Thread) {
 			if !t.finished {
 				unfinished++
 			}
+		}
+		// the others in round-robin order after the thread that ran last
+		from := s.lastRan
+		if self != nil {
+			from = self.Id
+		}
+		for k := 1; k <= len(s.threads); k++ {
+			t := s.threads[(from+k)%len(s.threads)]
 			if t != self && s.enabled(t) {
 				en = append(en, t)
 			}
@@ -409,15 +517,30 @@ func (s *Scheduler) schedule(self *Thread) {
 				s.Aborted = true
 				s.mu.Unlock()
 				s.finish()
-				panic(abortExec{})
+				s.abortHere(self)
 			}
 			// only time can change anything: the timer fires (below, at no cost)
 		}
 		var tm []*timer
 		for _, x := range s.timers {
-			if !x.fired && !x.stale {
+			// a timer only needs to fire while its owner waits on it: until the owner looks at
+			// the channel nobody can tell whether it fired, so firing earlier is the same
+			// behaviour as firing then (partial-order reduction)
+			if !x.fired && !x.stale && x.owner.pending != nil && !x.owner.finished && x.owner.pending.listens(x.key) {
 				tm = append(tm, x)
 			}
+		}
+		// fairness: a thread that has been runnable for FairK decisions in a row without
+		// being picked goes next (busy loops that poll a closed channel, like the kernel loop
+		// after shutdown, would otherwise be unrolled without end by the default schedule)
+		var starved *Thread
+		for _, t := range en {
+			if t != self && t.waiting >= FairK && (starved == nil || t.waiting > starved.waiting) {
+				starved = t
+			}
+		}
+		if starved != nil {
+			en, tm = []*Thread{starved}, nil
 		}
 		if unfinished == 0 {
 			s.mu.Unlock()
@@ -438,19 +561,22 @@ func (s *Scheduler) schedule(self *Thread) {
 			s.mu.Unlock()
 			s.finish()
 			if self != nil && s.Deadlock != "" {
-				panic(abortExec{})
+				s.abortHere(self)
 			}
 			return
 		}
-		if sn, ok := s.ch.(Seener); ok && sn.Seen(func() string { return s.stateKey(self) }) {
-			s.Cut = true
+		if sn, ok := s.ch.(Seener); ok && !s.draining && sn.Seen(func() string { return s.stateKey(self) }) && s.cutHere() {
 			s.Aborted = true
 			s.mu.Unlock()
 			s.finish()
 			if self != nil {
-				panic(abortExec{})
+				s.abortHere(self)
 			}
 			return
+		}
+		waitingBefore := make(map[*Thread]int, len(en))
+		for _, t := range en {
+			waitingBefore[t] = t.waiting
 		}
 		labels := make([]string, 0, len(en)+len(tm))
 		costs := make([]int, 0, len(en)+len(tm))
@@ -460,6 +586,9 @@ func (s *Scheduler) schedule(self *Thread) {
 			c := 0
 			if preempt && i > 0 {
 				c = 1 // switching away from a thread that could go on is a preemption
+			}
+			if s.delayBound {
+				c = i // delay bounding: every thread skipped in the round-robin order costs one delay
 			}
 			costs = append(costs, c)
 		}
@@ -472,7 +601,7 @@ func (s *Scheduler) schedule(self *Thread) {
 			costs = append(costs, c)
 		}
 		s.mu.Unlock()
-		k := s.ch.Choose(labels, costs)
+		k := s.choose(labels, costs)
 		if s.KeepTrace {
 			if len(labels) > 1 {
 				s.Trace = append(s.Trace, fmt.Sprintf("%s   [%d of %s]", labels[k], k, strings.Join(labels, " | ")))
@@ -516,15 +645,28 @@ func (s *Scheduler) schedule(self *Thread) {
 						cs[i] = 1
 					}
 				}
-				o.chosen = rdy[s.ch.Choose(ls, cs)]
+				o.chosen = rdy[s.choose(ls, cs)]
 			}
 		}
 		s.mu.Lock()
 		s.running = next
-		if next.pending.kind == opSelect && next.pending.chosen == -1 {
-			next.spins++
+		s.lastRan = next.Id
+		for _, t := range s.threads {
+			t.waiting = 0
+		}
+		for _, t := range en {
+			if t != next {
+				t.waiting = waitingBefore[t] + 1
+			}
+		}
+		if next.pending.kind == opSelect && next.pending.chosen == -1 && next.pending.site != 0 {
+			if next.spinSite == next.pending.site {
+				next.spins++
+			} else {
+				next.spins, next.spinSite = 1, next.pending.site
+			}
 		} else {
-			next.spins = 0
+			next.spins, next.spinSite = 0, 0
 		}
 		if next != self {
 			for _, t := range s.threads {
@@ -544,11 +686,22 @@ func (s *Scheduler) schedule(self *Thread) {
 			ab := s.Aborted
 			s.mu.Unlock()
 			if ab {
-				panic(abortExec{})
+				s.abortHere(self)
 			}
 		}
 		return
 	}
+}
+
+// cutHere: an equal state was expanded before. Either the execution is abandoned (true)
+// or it goes on in draining mode (false).
+func (s *Scheduler) cutHere() bool {
+	s.Cut = true
+	if s.drainOnCut {
+		s.draining = true
+		return false
+	}
+	return true
 }
 
 func (s *Scheduler) finish() {
@@ -565,8 +718,9 @@ func (s *Scheduler) finish() {
 func (s *Scheduler) point(o *op) *op {
 	s.mu.Lock()
 	if s.Aborted {
+		t := s.running
 		s.mu.Unlock()
-		panic(abortExec{})
+		s.abortHere(t)
 	}
 	t := s.running
 	t.pending = o
@@ -580,7 +734,18 @@ func key(ch any) uintptr {
 	if v.Kind() != reflect.Chan || v.IsNil() {
 		return 0
 	}
-	return v.Pointer()
+	k := v.Pointer()
+	// the channel is identified by its address: keep it alive for the whole execution,
+	// otherwise the address of a collected channel is handed to a new one, which would
+	// inherit its closed flag and its tokens
+	if s := active(); s != nil {
+		s.cmu.Lock()
+		if _, ok := s.keep[k]; !ok {
+			s.keep[k] = ch
+		}
+		s.cmu.Unlock()
+	}
+	return k
 }
 
 func (s *Scheduler) isClosed(k uintptr) bool {
@@ -626,7 +791,7 @@ func Recv2[T any](ch <-chan T) (T, bool) {
 	}
 	k := key(ch)
 	var z T
-	s.point(&op{kind: opRecv, label: fmt.Sprintf("recv %T", z), ready: func() bool { return ch != nil && (len(ch) > 0 || s.isClosed(k)) }})
+	s.point(&op{kind: opRecv, recvKey: k, label: fmt.Sprintf("recv %T", z), ready: func() bool { return ch != nil && (len(ch) > 0 || s.isClosed(k)) }})
 	s.note(s.running, 2, s.popTok(k), 0)
 	v, ok := <-ch
 	s.ev(Event{Kind: EvRecv, Key: k, Case: -1, Ok: ok})
@@ -639,8 +804,9 @@ func Recv2[T any](ch <-chan T) (T, bool) {
 func Close[T any](ch chan T) {
 	s := active()
 	if s != nil {
+		kk := key(ch)
 		s.cmu.Lock()
-		s.closed[key(ch)] = true
+		s.closed[kk] = true
 		s.cmu.Unlock()
 		s.mu.Lock()
 		ab := s.Aborted
@@ -664,8 +830,9 @@ func Close[T any](ch chan T) {
 func CloseSend[T any](ch chan<- T) {
 	s := active()
 	if s != nil {
+		kk := key(ch)
 		s.cmu.Lock()
-		s.closed[key(ch)] = true
+		s.closed[kk] = true
 		s.cmu.Unlock()
 		s.mu.Lock()
 		ab := s.Aborted
@@ -726,6 +893,12 @@ func Select(hasDefault bool, cases ...Case) int {
 		return nativeSelect(hasDefault, cases)
 	}
 	o := &op{kind: opSelect, hasDef: hasDefault, chosen: -1}
+	if hasDefault {
+		var pcs [1]uintptr
+		if runtime.Callers(2, pcs[:]) == 1 {
+			o.site = pcs[0]
+		}
+	}
 	var ls []string
 	for _, c := range cases {
 		sc := c.sel(s)
@@ -846,6 +1019,8 @@ func After(d time.Duration) <-chan time.Time {
 	s.mu.Lock()
 	defer s.mu.Unlock()
 	t := &timer{id: int(s.running.nops), owner: s.running, ch: make(chan time.Time, 1), at: s.clock + d}
+	t.key = reflect.ValueOf(t.ch).Pointer()
+	s.keep[t.key] = t.ch
 	// a timer created by a thread that has created one before replaces it (the previous
 	// select of that thread is over, nobody listens to the old channel any more)
 	for _, o := range s.timers {
@@ -886,7 +1061,7 @@ func Intn(n int) int {
 			cs[i] = 1
 		}
 	}
-	k := s.ch.Choose(ls, cs)
+	k := s.choose(ls, cs)
 	s.note(s.running, 8, uint64(k), uint64(n))
 	s.ev(Event{Kind: EvIntn, N: k, Case: -1})
 	return k
@@ -936,3 +1111,110 @@ func Current() *Scheduler { return active() }
 
 // KeyOf is the identity the event log uses for a channel.
 func KeyOf(ch any) uintptr { return key(ch) }
+
+// ---------------------------------------------------------------------------
+// mutexes: under the scheduler the real sync.Mutex / sync.RWMutex is never touched
+// (a logical thread parked while holding it would block the goroutine of another
+// one for good); ownership is tracked here and Lock / RLock are blocking operations
+// of the scheduler. A waiting writer excludes new readers, as sync.RWMutex does.
+// ---------------------------------------------------------------------------
+
+type lockState struct {
+	writer  bool
+	readers int
+}
+
+func lockKey(l any) uintptr {
+	v := reflect.ValueOf(l)
+	for v.Kind() == reflect.Ptr && v.Elem().Kind() == reflect.Ptr {
+		v = v.Elem()
+	}
+	return v.Pointer()
+}
+
+func (s *Scheduler) lockOf(k uintptr) *lockState {
+	st := s.locks[k]
+	if st == nil {
+		st = &lockState{}
+		s.locks[k] = st
+	}
+	return st
+}
+
+const (
+	opLockW opKind = iota + 100
+	opLockR
+)
+
+func (s *Scheduler) writerWaiting(k uintptr, self *Thread) bool {
+	for _, t := range s.threads {
+		if t != self && !t.finished && t.pending != nil && t.pending.kind == opLockW && t.pending.lockKey == k {
+			return true
+		}
+	}
+	return false
+}
+
+// Lock / Unlock / RLock / RUnlock replace x.Lock() ... of a sync.Mutex or sync.RWMutex.
+func Lock(l sync.Locker) {
+	s := active()
+	if s == nil {
+		l.Lock()
+		return
+	}
+	k := lockKey(l)
+	st := s.lockOf(k)
+	s.point(&op{kind: opLockW, lockKey: k, label: "Lock", ready: func() bool { return !st.writer && st.readers == 0 }})
+	st.writer = true
+	s.note(s.running, 13, 0, 0)
+}
+
+func Unlock(l sync.Locker) {
+	s := active()
+	if s == nil {
+		l.Unlock()
+		return
+	}
+	st := s.lockOf(lockKey(l))
+	if !st.writer {
+		panic("sync: unlock of unlocked mutex")
+	}
+	st.writer = false
+	s.note(s.running, 14, 0, 0)
+}
+
+type rlocker interface {
+	RLock()
+	RUnlock()
+}
+
+func RLock(l rlocker) {
+	s := active()
+	if s == nil {
+		l.RLock()
+		return
+	}
+	k := lockKey(l)
+	st := s.lockOf(k)
+	var me *Thread
+	s.mu.Lock()
+	me = s.running
+	s.mu.Unlock()
+	s.point(&op{kind: opLockR, lockKey: k, label: "RLock", ready: func() bool { return !st.writer && !s.writerWaiting(k, me) }})
+	st.readers++
+	s.note(s.running, 15, 0, 0)
+}
+
+func RUnlock(l rlocker) {
+	s := active()
+	if s == nil {
+		l.RUnlock()
+		return
+	}
+	st := s.lockOf(lockKey(l))
+	if st.readers <= 0 {
+		panic("sync: RUnlock of unlocked RWMutex")
+	}
+	st.readers--
+	s.note(s.running, 16, 0, 0)
+}
